@@ -13,9 +13,13 @@ def run(res):
     # multi-component creation and a non-integer explicit id
     K2 = wc.base(Acts=ACTS | {'create2'}, Ids={2, 101}, **wc.comps(C3))
     wc.check_and_replay(res, 'c01_create2', K2, own, depth_all=0, walks=1000)
+    # entities deleted (immediately or by scheduling) from inside the on_remove callbacks of a running deferred deletion
+    CH = {'c1': ('A', ('on_remove',)), 'c2': ('B', ('on_remove',)), 'c3': ('A', ())}
+    K3 = wc.base(Acts={'create', 'add', 'delete', 'process', 'fault'}, Ids={1, 2}, MaxAuto=0, Types=wc.T2, Bases=wc.BASES2, **wc.comps(CH, falsy={'c1'}))
+    wc.check_and_replay(res, 'c01_callbacks', K3, own | {'log'}, depth_all=0, walks=1000)
     # (B) recorded executions over larger pools (10 ids incl. non-integer ones, 10 components, diamond), validated by TLC
     th = res.tier == 'thorough'
-    wc.trace_validate(res, 'c01_recorded', wc.big({'create', 'create2', 'add', 'remove', 'delete', 'process', 'clear'}), 2000 if th else 150, 60)
+    wc.trace_validate(res, 'c01_recorded', wc.big({'create', 'create2', 'add', 'remove', 'delete', 'process', 'clear', 'fault'}), 2000 if th else 150, 60)
     wc.repo_tests_validate(res)
     # non-vacuity: the as-implemented branches violate the invariants
     wc.switch_run(res, 'c01', K, 'ReplaceBeforeIndex', ('IndexIsTranspose', 'QueriesAgree'))
